@@ -33,9 +33,112 @@ pub trait Hist: Clone + Sized + std::fmt::Debug {
     fn normalized_bins(&self) -> Vec<f64>;
     fn variances(&self) -> Vec<f64>;
     fn variance(&self, i: usize) -> f64;
+    /// The Iterator protocol of iter(), into_iter() and the four view iterators: nth, skip, step_by,
+    /// count, last and size_hint must agree with plain next()-by-next() iteration.
+    fn iter_protocol(&self) -> Result<(), String>;
     /// serde_json round trip (macro histograms only)
     fn to_json(&self) -> Option<String>;
     fn from_json(s: &str) -> Option<Result<Self, String>>;
+}
+
+/// Every public read-out of a histogram as (label, value) pairs: edges, counts, range_min/max, the
+/// items of iteration and all derived views — `variance(i)` separately from `variances()`, since an
+/// implementation may compute them from different (possibly cached) state.
+pub fn full_snapshot<H: Hist>(h: &H) -> Vec<(String, f64)> {
+    let mut v: Vec<(String, f64)> = Vec::new();
+    for (i, r) in h.ranges().iter().enumerate() {
+        v.push((format!("range[{}]", i), *r));
+    }
+    let bins = h.bins();
+    for (i, b) in bins.iter().enumerate() {
+        v.push((format!("bin[{}]", i), *b as f64));
+    }
+    v.push(("range_min".into(), h.range_min()));
+    v.push(("range_max".into(), h.range_max()));
+    for (i, ((lo, hi), c)) in h.items().into_iter().enumerate() {
+        v.push((format!("item[{}].lower", i), lo));
+        v.push((format!("item[{}].upper", i), hi));
+        v.push((format!("item[{}].count", i), c as f64));
+    }
+    for (i, x) in h.widths().iter().enumerate() {
+        v.push((format!("width[{}]", i), *x));
+    }
+    for (i, x) in h.centers().iter().enumerate() {
+        v.push((format!("center[{}]", i), *x));
+    }
+    for (i, x) in h.normalized_bins().iter().enumerate() {
+        v.push((format!("normalized[{}]", i), *x));
+    }
+    for (i, x) in h.variances().iter().enumerate() {
+        v.push((format!("variances()[{}]", i), *x));
+    }
+    for i in 0..bins.len() {
+        v.push((format!("variance({})", i), h.variance(i)));
+    }
+    v
+}
+
+
+/// `mk()` produces a fresh iterator; every adaptor result is compared (after `conv`, which maps an item
+/// to bit patterns so that NaN compares equal to itself) with what sequential `next()` calls yield.
+/// The adaptors are applied to the RAW iterator, so that an overridden `nth` / `size_hint` / `count` /
+/// `last` of the implementation is the code that runs.
+pub fn probe_iter<T, U: PartialEq + std::fmt::Debug, I: Iterator<Item = T>>(what: &str, mk: impl Fn() -> I, conv: impl Fn(T) -> U) -> Result<(), String> {
+    let mut all: Vec<U> = Vec::new();
+    let mut it = mk();
+    while let Some(x) = it.next() {
+        all.push(conv(x));
+        if all.len() > 100_000 {
+            return Err(format!("{}: iterator does not terminate", what));
+        }
+    }
+    if it.next().is_some() {
+        return Err(format!("{}: yields an item again after returning None", what));
+    }
+    let n = all.len();
+    let (lo, hi) = mk().size_hint();
+    if lo > n || hi.map_or(false, |h| h < n) {
+        return Err(format!("{}: size_hint() = ({}, {:?}) but the iterator yields {} items", what, lo, hi, n));
+    }
+    for k in 0..=n + 1 {
+        let got = mk().nth(k).map(&conv);
+        if got.as_ref() != all.get(k) {
+            return Err(format!("{}: nth({}) = {:?} but sequential iteration gives {:?}", what, k, got, all.get(k)));
+        }
+        let sk: Vec<U> = mk().skip(k).map(&conv).collect();
+        if sk[..] != all[k.min(n)..] {
+            return Err(format!("{}: skip({}) yields {:?}, sequential iteration gives {:?}", what, k, sk, &all[k.min(n)..]));
+        }
+    }
+    // nth in the middle of an iteration (state left behind by nth)
+    if n >= 2 {
+        let mut it = mk();
+        let _ = it.nth(0);
+        let rest: Vec<U> = it.map(&conv).collect();
+        if rest[..] != all[1..] {
+            return Err(format!("{}: after nth(0) the rest is {:?}, expected {:?}", what, rest, &all[1..]));
+        }
+    }
+    for step in [2usize, 3] {
+        let st: Vec<U> = mk().step_by(step).map(&conv).collect();
+        let want: Vec<&U> = all.iter().step_by(step).collect();
+        if st.iter().collect::<Vec<_>>() != want {
+            return Err(format!("{}: step_by({}) yields {:?}, expected {:?}", what, step, st, want));
+        }
+    }
+    let c = mk().count();
+    if c != n {
+        return Err(format!("{}: count() = {} but the iterator yields {} items", what, c, n));
+    }
+    let l = mk().last().map(&conv);
+    if l.as_ref() != all.last() {
+        return Err(format!("{}: last() = {:?}, expected {:?}", what, l, all.last()));
+    }
+    Ok(())
+}
+
+pub fn item_bits(x: ((f64, f64), u64)) -> [u64; 3] {
+    [(x.0).0.to_bits(), (x.0).1.to_bits(), x.1]
 }
 
 macro_rules! impl_macro_hist {
@@ -88,6 +191,14 @@ macro_rules! impl_macro_hist {
             }
             fn items_via_iter_method(&self) -> Vec<((f64, f64), u64)> {
                 self.iter().collect()
+            }
+            fn iter_protocol(&self) -> Result<(), String> {
+                crate::hist::probe_iter("iter()", || self.iter(), crate::hist::item_bits)?;
+                crate::hist::probe_iter("into_iter()", || self.into_iter(), crate::hist::item_bits)?;
+                crate::hist::probe_iter("widths()", || average::Histogram::widths(self), f64::to_bits)?;
+                crate::hist::probe_iter("centers()", || average::Histogram::centers(self), f64::to_bits)?;
+                crate::hist::probe_iter("normalized_bins()", || average::Histogram::normalized_bins(self), f64::to_bits)?;
+                crate::hist::probe_iter("variances()", || average::Histogram::variances(self), f64::to_bits)
             }
             fn widths(&self) -> Vec<f64> {
                 average::Histogram::widths(self).collect()
@@ -175,6 +286,14 @@ mod constgen {
                 }
                 fn items_via_iter_method(&self) -> Vec<((f64, f64), u64)> {
                     self.iter().collect()
+                }
+                fn iter_protocol(&self) -> Result<(), String> {
+                    crate::hist::probe_iter("iter()", || self.iter(), crate::hist::item_bits)?;
+                    crate::hist::probe_iter("into_iter()", || self.into_iter(), crate::hist::item_bits)?;
+                    crate::hist::probe_iter("widths()", || Histogram::<$len>::widths(self), f64::to_bits)?;
+                    crate::hist::probe_iter("centers()", || Histogram::<$len>::centers(self), f64::to_bits)?;
+                    crate::hist::probe_iter("normalized_bins()", || Histogram::<$len>::normalized_bins(self), f64::to_bits)?;
+                    crate::hist::probe_iter("variances()", || Histogram::<$len>::variances(self), f64::to_bits)
                 }
                 fn widths(&self) -> Vec<f64> {
                     Histogram::<$len>::widths(self).collect()
